@@ -58,7 +58,7 @@ def bin_rule(ctx):
     item = ("item", it)
     key = mk_bin("min", ("proj", 0, item), ("proj", 1, item))
     muts = {lid: b for lid, b in fv.binds.items() if b["mut"] and b["val"][0] == "node"}
-    bucket = [(lid, b) for lid, b in muts.items() if fv.term(b["val"][1])[0] == "call" and fv.term(b["val"][1])[1].endswith("from_elem")]
+    bucket = [(lid, b) for lid, b in muts.items() if zero_vec_len(fv.term(b["val"][1]), True) is not None]
     totals = [(lid, b) for lid, b in muts.items() if fv.term(b["val"][1]) == L(0.0)]
     if len(bucket) != 1 or len(totals) != 1:
         ctx.fail("C08.B", "vectorise_one:bucket", "bucket / total not found", sp)
@@ -66,7 +66,7 @@ def bin_rule(ctx):
     bv = ("local", bucket[0][1]["name"], bucket[0][0])
     tv = ("local", totals[0][1]["name"], totals[0][0])
     alloc = fv.term(bucket[0][1]["val"][1])
-    ctx.check("C08.B", "vectorise_one:bucket", alloc[2] == L(0.0) and alloc[3] == SF("bin_count"),
+    ctx.check("C08.B", "vectorise_one:bucket", zero_vec_len(alloc) == SF("bin_count"),
               "bucket = vec![0.0; self.bin_count]", "bucket is `%s`, expected bin_count zeroes" % show(alloc), sp)
     ops = [x for x in walk(loop["body"]) if x.get("k") == "assignop"]
     incs = [x for x in ops if fv.term(x["l"]) != tv]
